@@ -312,7 +312,7 @@ func engineC46(c *vctx) error {
 	}
 
 	// ---- random layouts, boundary pairs ----
-	rounds := c.n(36, 900)
+	rounds := c.n(22, 900)
 	for r := 0; r < rounds; r++ {
 		rng := c.rng.fork()
 		nb := rng.intn(7)
@@ -393,7 +393,7 @@ func engineC46(c *vctx) error {
 	}
 
 	// ---- concurrent readers on one handle, tiny cache (evictions + in-progress sharing) ----
-	crounds := c.n(6, 120)
+	crounds := c.n(3, 120)
 	for r := 0; r < crounds; r++ {
 		rng := c.rng.fork()
 		nb := 2 + rng.intn(6)
